@@ -75,6 +75,17 @@ type Obligation struct {
 	known   string
 }
 
+type defEntry struct {
+	name string
+	at   int
+	text string
+}
+
+type writeRec struct {
+	heap string
+	ref  string
+}
+
 type VC struct {
 	eng       *Engine
 	slice     map[string]bool
@@ -98,6 +109,11 @@ type VC struct {
 	quiet       int // >0: speculative run, do not record obligations
 	globals     []string // unconditional facts about uninterpreted symbols (never rolled back)
 	rawDecls    []string
+	declIndex   map[string]int
+	defCache    map[string]defEntry
+	factCache   map[string]int
+	writeLog    []writeRec
+	allocNames  map[string]int // allocation constants -> position in decls
 	curFn       []*ssa.Function
 	maxDepth    int
 }
@@ -124,7 +140,26 @@ func (vc *VC) declare(name, sort string) {
 		return
 	}
 	vc.declared[name] = true
+	if vc.declIndex == nil {
+		vc.declIndex = map[string]int{}
+	}
+	vc.declIndex[name] = len(vc.decls)
 	vc.decls = append(vc.decls, fmt.Sprintf("(declare-const %s %s)", name, sort))
+}
+
+// newRef allocates a fresh object reference.
+func (vc *VC) newRef(st *State, hint string) string {
+	ref := vc.define(hint, sortInt, "(+ "+st.alloc+" 1)")
+	st.alloc = ref
+	if vc.allocNames == nil {
+		vc.allocNames = map[string]int{}
+	}
+	vc.allocNames[ref] = vc.declIndex[ref]
+	return ref
+}
+
+func (vc *VC) logWrite(heap, ref string) {
+	vc.writeLog = append(vc.writeLog, writeRec{heap, ref})
 }
 
 func (vc *VC) fresh(hint, sort string) string {
@@ -138,8 +173,17 @@ func (vc *VC) define(hint, sort, term string) string {
 	if isAtom(term) {
 		return term
 	}
+	// hash-consing: the same term (same heap versions included) gets the same name
+	if d, ok := vc.defCache[term]; ok && d.at < len(vc.asserts) && vc.asserts[d.at] == d.text {
+		return d.name
+	}
 	n := vc.fresh(hint, sort)
-	vc.asserts = append(vc.asserts, fmt.Sprintf("(= %s %s)", n, term))
+	text := fmt.Sprintf("(= %s %s)", n, term)
+	if vc.defCache == nil {
+		vc.defCache = map[string]defEntry{}
+	}
+	vc.defCache[term] = defEntry{name: n, at: len(vc.asserts), text: text}
+	vc.asserts = append(vc.asserts, text)
 	return n
 }
 
@@ -168,6 +212,18 @@ func (vc *VC) declareRaw(name, decl string) {
 	}
 	vc.declared[name] = true
 	vc.rawDecls = append(vc.rawDecls, decl)
+}
+
+// assumeOnce adds an unconditional fact unless the identical fact is already among the assumptions.
+func (vc *VC) assumeOnce(fact string) {
+	if at, ok := vc.factCache[fact]; ok && at < len(vc.asserts) && vc.asserts[at] == fact {
+		return
+	}
+	if vc.factCache == nil {
+		vc.factCache = map[string]int{}
+	}
+	vc.factCache[fact] = len(vc.asserts)
+	vc.asserts = append(vc.asserts, fact)
 }
 
 func (vc *VC) note(f string, a ...interface{}) {
@@ -243,6 +299,7 @@ func (vc *VC) heapHavoc(st *State, key string) {
 		return
 	}
 	vc.heapGet(st, key, sort)
+	vc.logWrite(key, "*")
 	st.heaps[key] = vc.fresh(key+"~h", sort)
 }
 
@@ -286,6 +343,7 @@ func (vc *VC) readField(st *State, ref string, si *structInfo, i int) string {
 
 func (vc *VC) writeField(st *State, ref string, si *structInfo, i int, v string) {
 	key := heapKeyField(si, i)
+	vc.logWrite(key, ref)
 	sort := "(Array Int " + si.fields[i].sort + ")"
 	h := vc.heapGet(st, key, sort)
 	vc.heapSet(st, key, sort, "(store "+h+" "+ref+" "+v+")")
@@ -321,6 +379,7 @@ func (vc *VC) rootRead(st *State, ip *IPtr) string {
 }
 
 func (vc *VC) rootWrite(st *State, ip *IPtr, v string) {
+	vc.logWrite(ip.heap, ip.ref)
 	switch ip.root {
 	case rootField, rootCell:
 		sort := "(Array Int " + ip.vsort + ")"
@@ -419,7 +478,7 @@ func (vc *VC) typeFacts(term string, t types.Type, alloc string) []string {
 
 func (vc *VC) assumeType(guard, term string, t types.Type, alloc string) {
 	for _, f := range vc.typeFacts(term, t, alloc) {
-		vc.assume("true", f)
+		vc.assumeOnce(f)
 	}
 	_ = guard
 }
@@ -433,6 +492,7 @@ const prelude = `(declare-datatype MInt ((mkMInt (mi!nil Bool) (mi!val Int))))
 (declare-const addr!nil Addr)
 (define-fun tdiv ((a Int) (b Int)) Int (ite (>= a 0) (ite (> b 0) (div a b) (- (div a (- b)))) (ite (> b 0) (- (div (- a) b)) (div (- a) (- b)))))
 (define-fun tmod ((a Int) (b Int)) Int (- a (* b (tdiv a b))))
+(declare-fun mulI (Int Int) Int)
 (declare-fun gid (Int) Int)
 (declare-fun bytes2str ((Array Int Int) Int) String)
 (declare-fun str2bytes (String) (Array Int Int))
